@@ -1,10 +1,57 @@
 IO_CODEC = ["IO/detail/Decoder.cc", "IO/detail/Encoder.cc", "IO/detail/WriteBuffer.cc"]
-PROPS["C06"] = dict(
-  jobs=[
-    dict(name="codec-ints", harness="C06_codec.cpp", entries=["harness_codec_ints", "harness_need"], units=IO_CODEC, unwind=40, eh=True, checks="mem",
-         timeout=300, mem_gb=2, bounds="all 8/16/32/64-bit integer values, float/double as arbitrary bit patterns; Decoder::need with buffer length <= 5, arbitrary 64-bit request"),
-    dict(name="codec-string", harness="C06_codec.cpp", entries=["harness_codec_string"], units=IO_CODEC, unwind=40, eh=True, checks="mem",
-         timeout=300, mem_gb=4, bounds="strings of length <= 3 with arbitrary bytes"),
-  ],
-  assumptions=["OVM-ASCII (FileManager) is outside the claim: iostream/locale code lives in libstdc++.so and cannot be encoded"],
-)
+_IO_HDR = ["IO/detail/Decoder.cc", "IO/detail/ovmb_codec.cc", "IO/detail/ovmb_format.cc", "IO/detail/Encoder.cc", "IO/detail/WriteBuffer.cc", "Core/Handles.cc"]
+_IO_PC6 = ["IO/PropertyCodecs.cc", "IO/detail/Decoder.cc", "IO/detail/Encoder.cc", "IO/detail/WriteBuffer.cc", "Core/ResourceManager.cc",
+           "Core/Properties/PropertyStorageBase.cc", "Core/detail/internal_type_name.cc", "Core/Handles.cc", "Core/BaseEntities.cc"]
+# id, ovmb name -- must match CODEC_TABLE in harness/io_codecs.h
+_CODECS6 = [(1, "u8"), (2, "u16"), (3, "u32"), (4, "u64"), (5, "i8"), (6, "i16"), (7, "i32"), (8, "i64"), (9, "f"), (10, "d"),
+            (12, "vh"), (13, "eh"), (14, "heh"), (15, "fh"), (16, "hfh"), (17, "ch"),
+            (18, "2d"), (19, "3d"), (20, "4d"), (21, "2f"), (22, "3f"), (23, "4f"), (24, "2u32"), (25, "3u32"), (26, "4u32"), (27, "2i32"), (28, "3i32"), (29, "4i32")]
+
+def _c06_unit_jobs():
+    J = [
+        dict(name="codec-ints", harness="C06_codec.cpp", entries=["harness_codec_ints", "harness_need"], units=IO_CODEC, unwind=40, eh=True, checks="mem",
+             timeout=300, mem_gb=2, bounds="all 8/16/32/64-bit integer values, float/double as arbitrary bit patterns; Decoder::need with buffer length <= 5, arbitrary 64-bit request"),
+        dict(name="codec-string", harness="C06_codec.cpp", entries=["harness_codec_string"], units=IO_CODEC, unwind=40, eh=True, checks="mem",
+             timeout=300, mem_gb=4, bounds="strings of length <= 3 with arbitrary bytes"),
+        dict(name="headers", harness="C06_headers.cpp", units=_IO_HDR, unwind=40, eh=True, checks="mem", timeout=300, mem_gb=4,
+             entries=["harness_file_header", "harness_chunk_header", "harness_span_and_prop_header", "harness_vertex_chunk_header", "harness_topo_chunk_header",
+                      "harness_enums", "harness_suitable_int_encoding", "harness_handles", "harness_property_info_empty"],
+             bounds="FileHeader/ChunkHeader/ArraySpan/PropChunkHeader/VertexChunkHeader/TopoChunkHeader: every field symbolic at full width (enums over their valid values; "
+                    "ChunkHeader flags and padding/length also over the invalid ones): write -> bytes equal the ovmb.ksy layout -> read gives the same struct, or is refused "
+                    "exactly for header_version != 1, flags > 1, padding_bytes > file_length; read_enum over all 256 byte values; suitable_int_encoding for every 32-bit value "
+                    "(and 64-bit counts below 2^32) incl. 255/256/65535/65536; handle codecs for every 32-bit index"),
+        dict(name="headers-property-info", harness="C06_headers.cpp", units=_IO_HDR, unwind=40, eh=True, checks="mem", timeout=300, mem_gb=4,
+             entries=["harness_property_info"], shards=[{0: a, 1: b} for a in range(4) for b in range(4)],
+             bounds="PropertyInfo with symbolic entity (0..6), name / data_type_name / serialized_default of length 0..3 each (one query per (name,type) length pair, "
+                    "default length by selector dispatch), every content byte symbolic: write -> ovmb.ksy layout -> read identity"),
+        dict(name="propcodec-b", harness="C06_propcodecs.cpp", units=_IO_PC6, unwind=64, eh=True, checks="mem", timeout=300, mem_gb=4, defines=["CODEC=0"],
+             ll2c_flags=["--drop-ctor=PropertyCodecs.cc"], entries=["harness_roundtrip_bool"],
+             shards={"quick": [{1: c, 2: f} for c in (1, 7, 8, 9, 15, 16, 17) for f in sorted(set([0, min(1, 17 - c), 17 - c]))],
+                     "thorough": [{1: c, 2: f} for c in range(1, 18) for f in range(0, 18 - c)]},
+             bounds="bool codec: 17 symbolic values, span {first,count} one query each (quick: count in {1,7,8,9,15,16,17} x first in {0,1,17-count}; thorough: all 153 spans): "
+                    "serialize -> ceil(count/8) bytes, bit k of the stream = element first+k (LSB first), spare bits 0 -> deserialize writes exactly the span; default: one byte 0/1"),
+        dict(name="propcodec-s32", harness="C06_propcodecs.cpp", units=_IO_PC6, unwind=64, eh=True, checks="mem", timeout=300, mem_gb=4, defines=["CODEC=11"],
+             ll2c_flags=["--drop-ctor=PropertyCodecs.cc"], entries=["harness_roundtrip_strings"], shards=[{0: a} for a in range(4)],
+             bounds="string codec: two elements of length 0..3 each with symbolic bytes (length of element 0 per query, of element 1 by dispatch): u32 length + bytes layout, "
+                    "deserialize identity, default value through serialize_default/request_property"),
+    ]
+    for (cid, name) in _CODECS6:
+        J.append(dict(name="propcodec-%s" % name, harness="C06_propcodecs.cpp", units=_IO_PC6, unwind=64, eh=True, checks="mem", timeout=300, mem_gb=4,
+                      defines=["CODEC=%d" % cid, "NELEM=3"], ll2c_flags=["--drop-ctor=PropertyCodecs.cc"], entries=["harness_roundtrip_n", "harness_roundtrip_default"],
+                      bounds="codec '%s': property of 3 elements with symbolic values (floating point as arbitrary bit patterns incl. NaNs), symbolic span {first,count}: serialize -> "
+                             "count*elemsize bytes in the published little-endian layout -> deserialize restores exactly the span; symbolic default value through "
+                             "serialize_default -> request_property (decode_one)" % name))
+    return J
+
+if "C06" not in PROPS:
+    PROPS["C06"] = dict(jobs=[], assumptions=[])
+_c06_mine = _c06_unit_jobs()
+_c06_names = set(j["name"] for j in _c06_mine)
+PROPS["C06"]["jobs"] = _c06_mine + [j for j in PROPS["C06"]["jobs"] if j["name"] not in _c06_names]
+PROPS["C06"]["assumptions"] = PROPS["C06"].get("assumptions", []) + [
+    "OVM-ASCII (FileManager) is outside the claim: iostream/locale code lives in libstdc++.so and cannot be encoded",
+    "unit level (a): property codecs are registered in a local PropertyCodecs by the repository's own register_codec<Codec>(name) and looked up by get_encoder/get_decoder; the static "
+    "initialiser of g_default_property_codecs is not executed in the symbolic build (ll2c --drop-ctor), so the name->codec table of add_default_types() is mirrored by harness/io_codecs.h, not checked",
+    "BinaryFileWriter::write_chunk (padding arithmetic) is private and writes to the ostream: not reachable at unit level (whole-file level only)",
+    "NOT covered at unit level: decode_one of the bool codec (request_property for bool does not terminate in CBMC's symbolic execution); encode_one for bool is covered",
+]
